@@ -308,6 +308,8 @@ Error BaseAssembler::embed_label(const Label& label, size_t data_size) {
 
     Fixup* fixup = _code->new_fixup(le, _section->section_id(), offset(), 0, of);
     if (ASMJIT_UNLIKELY(!fixup)) {
+      // Nothing is emitted - make the relocation entry we have just created a no-op.
+      re->_reloc_type = RelocType::kNone;
       return report_error(make_error(Error::kOutOfMemory));
     }
 
@@ -372,6 +374,8 @@ Error BaseAssembler::embed_label_delta(const Label& label, const Label& base, si
 
     Expression* exp = _code->_arena.new_oneshot<Expression>();
     if (ASMJIT_UNLIKELY(!exp)) {
+      // Nothing is emitted - make the relocation entry we have just created a no-op.
+      re->_reloc_type = RelocType::kNone;
       return report_error(make_error(Error::kOutOfMemory));
     }
 
